@@ -89,6 +89,11 @@ theorem fill_head_of_next (L : Nat) (hb : Bytes) (p : Piece) (ps : List Piece) (
     simpa using this
   exact ⟨hfit, fill_head L hb _ out h hfit⟩
 
+/-- `copy(data[n:], hb); n += 8` of an 8-byte block is a plain copy -/
+theorem fill_copyAdv8 (L : Nat) (hb : Bytes) (ps : List Piece) (h8 : hb.length = 8) :
+    fill L (pCopyAdv hb 8 :: ps) = fill L (pCopy hb :: ps) := by
+  simp only [fill, pCopyAdv, pCopy, fillFrom, h8]
+
 /-! ### the OpenFlow header -/
 
 /-- the embedded header of a message value: its first field (`.nil` if there is none) -/
@@ -232,12 +237,5 @@ def VendorPayloadOK (d : V) : Prop :=
 
 theorem VendorPayloadOK.of_pure (d : V) (hp : LenPure anyLenM d) (hd : d ≠ .nil) : VendorPayloadOK d :=
   ⟨hp.idem, fun l d' h => by rw [hp l d' h]; exact hd⟩
-
-/-- the action kinds whose reported size is always a multiple of 8 (`C06b.action_len_aligned`): the fixed 8/16-byte
-    kinds and the kinds that round up -/
-def PaddedKinds : List String :=
-  ["ActionOutput", "ActionSetqueue", "ActionGroup", "ActionDecNwTtl", "ActionPush", "ActionPopVlan",
-   "ActionPopMpls", "ActionSetField", "NXActionCTNAT", "NXActionLearn", "NXActionNote", "NXActionRegLoad2",
-   "NXActionController"]
 
 end OFV.Frame
